@@ -11,6 +11,7 @@ import itertools
 import json
 import os
 import random
+import struct
 
 from vlib import core
 
@@ -190,6 +191,134 @@ def model_eval(ctx, hs):
     return out
 
 
+# ---------------------------------------------------------------------------
+# the blocking client: comms.acquire / comms.release on a fake socket
+# ---------------------------------------------------------------------------
+CLIENT_ALIAS = {'00': {'kind': 'mutex', 'name': 'lock'}, '01': {'kind': 'mutex', 'name': 'unlock'},
+                '05': {'kind': 'obj', 'value': True}, '06': {'kind': 'obj', 'value': False}}
+YOURS = [b'\x01', b'\x05']     # loads(p) == Mutex.unlock (True == Mutex.unlock in Python)
+
+
+def fr(p):
+    return struct.pack('>I', len(p)) + p
+
+
+def zl(b):
+    return '[' + ';'.join(str(x) for x in b) + ']'
+
+
+def zll(bs):
+    return '[' + ';'.join(zl(b) for b in bs) + ']' if bs else '(@nil (list Z))'
+
+
+def all_lens(n):
+    for mask in range(2 ** (n - 1)):
+        lens, last = [], 0
+        for i in range(n - 1):
+            if mask >> i & 1:
+                lens.append(i + 1 - last)
+                last = i + 1
+        lens.append(n - last)
+        yield lens
+
+
+def cut(stream, lens):
+    out, pos = [], 0
+    for n in lens:
+        out.append(stream[pos:pos + n])
+        pos += n
+    return out
+
+
+def run_client(ctx):
+    rng = random.Random('%s:C13:client' % ctx.seed)
+    real = ctx.harness('drive_client.py', {'pickles': [CLIENT_ALIAS['00'], CLIENT_ALIAS['01'],
+                                                        CLIENT_ALIAS['05'], CLIENT_ALIAS['06']]})['pickles']
+    rlock, runlock, rtrue, rfalse = [bytes.fromhex(x) for x in real]
+    cases = []
+
+    def add(fn, statuses, rest, lens, known, yours):
+        stream = b''.join(fr(m) for m in statuses) + rest
+        cases.append({'fn': fn, 'statuses': statuses, 'rest': rest, 'stream': stream, 'lens': lens,
+                      'known': known, 'yours': yours, 'chunks': cut(stream, lens)})
+
+    al = [b'\x00', b'\x01', b'\x05', b'\x06']
+    shorts = [('acquire', [b'\x00', b'\x01'], b'\x09'), ('acquire', [b'\x01'], b'\x00\x00\x00\x01\x00'),
+              ('acquire', [b'\x00', b'\x00'], b''), ('acquire', [b'\x06', b'\x05', b'\x01'], b''),
+              ('release', [b'\x05'], b'\x09\x09'), ('release', [b'\x06'], b'')]
+    for fn, st, rest in shorts:
+        n = len(b''.join(fr(m) for m in st) + rest)
+        allc = list(all_lens(n))
+        if ctx.quick and len(allc) > 1024:
+            allc = rng.sample(allc, 1024)
+        for lens in allc:
+            add(fn, st, rest, lens, al, YOURS)
+    rk = [rlock, runlock, rtrue, rfalse]
+    for _ in range(ctx.n(80, 1500)):
+        st = [rlock] * rng.randint(0, 4) + [runlock]
+        rest = rng.choice([b'', b'\x00', fr(rlock), fr(runlock)[:7]])
+        n = len(b''.join(fr(m) for m in st) + rest)
+        cuts = sorted(set(rng.randrange(1, n) for _ in range(rng.choice([0, 1, 3, 7, 20]))))
+        add('acquire', st, rest, [j - i for i, j in zip([0] + cuts, cuts + [n])], rk, [runlock, rtrue])
+    impl = ctx.harness('drive_client.py', {'alias': CLIENT_ALIAS, 'cases': [
+        {'fn': c['fn'], 'chunks': [x.hex() for x in c['chunks']]} for c in cases]})['cases']
+    ctx.log('client: implementation ran %d acquire/release socket cases' % len(cases))
+    exprs, wants = [], []
+    for c, o in zip(cases, impl):
+        known = c['known']
+        got = [bytes.fromhex(x) for x in o['got']]
+        left = [list(bytes.fromhex(x)) for x in o['left']]
+        rep = {'source': 'oracle', 'theorem': 'C13_client_acquire', 'observed': o,
+               'client_case': {'fn': c['fn'], 'chunks': [x.hex() for x in c['chunks']], 'alias': CLIENT_ALIAS}}
+        if o['exc'] == 'Spin':
+            canon = ([[-9]], [])
+        elif o['exc']:
+            canon = ([[-8, o['exc']]], [])
+        else:
+            canon = ([[0, known.index(g)] if g in known else [0, -1] + list(g) for g in got], left)
+        # oracle: acquire returns at the first "yours" status, release after one reply
+        st = c['statuses']
+        if c['fn'] == 'acquire':
+            k = next((i for i, m in enumerate(st) if m in c['yours']), None)
+            if k is not None:
+                rest = b''.join(fr(m) for m in st[k + 1:]) + c['rest']
+                if (o['exc'] or got != st[:k + 1] or b''.join(bytes(x) for x in left) != rest or o['closed']
+                        or len(o['sent']) != 1):
+                    ctx.violation('client-acquire', {'fn': 'acquire'},
+                                  'comms.acquire on chunks %s read %s, left %s (closed=%s)'
+                                  % (c['lens'], o['got'], o['left'], o['closed']), rep)
+            elif o['exc'] != 'Spin':
+                ctx.violation('client-acquire', {'fn': 'acquire'},
+                              'comms.acquire returned without being told "yours": %s' % o, rep)
+            exprs.append('obs_recv %s (acquire_wait %d%%nat (fun p => mem p %s) %s)'
+                         % (zll(known), len(st) + 2, zll(c['yours']), zll(c['chunks'])))
+        else:
+            rest = b''.join(fr(m) for m in st[1:]) + c['rest']
+            if (o['exc'] or got != st[:1] or not o['closed'] or b''.join(bytes(x) for x in left) != rest
+                    or o['ret'] != repr(st[0] == b'\x05')):
+                ctx.violation('client-release', {'fn': 'release'}, 'comms.release: %s' % o, rep)
+            exprs.append('obs_recv %s (receive_n 1%%nat %s)' % (zll(known), zll(c['chunks'])))
+        wants.append(canon)
+    batched = ['[' + '; '.join(exprs[i:i + 60]) + ']' for i in range(0, len(exprs), 60)]
+    res = [x for b in ctx.coq_eval(['DV.Model.Frame', 'DV.Model.Client'], batched, chunk=5) for x in b]
+    assert len(res) == len(exprs)
+    mism = None
+    keys = []
+    for c, want, m in zip(cases, wants, res):
+        evs, left = m
+        if ([list(e) for e in evs], [list(x) for x in left]) != want and mism is None:
+            mism = (c, want, m)
+        if len(c['lens']) > 1:
+            keys.append(('client', c['fn'], c['stream'].hex(), c['lens']))
+    ctx.count(evaluations=len(cases), nontrivial_keys=keys)
+    ctx.note('client_cases', len(cases))
+    if mism and ctx.nviol == 0:
+        c, want, m = mism
+        ctx.broken('correspondence Client.v vs comms.%s' % c['fn'],
+                   'chunks %s\nimplementation: %s\nmodel: %s' % ([x.hex() for x in c['chunks']], want, m),
+                   {'source': 'correspondence', 'expected': repr(m), 'observed': repr(want)})
+
+
 def run(ctx):
     ctx.cov['rule'] = (
         'histories over Acquire/Poll/Release/Drop/Timer x clients: every history of length 4 for 2 '
@@ -206,8 +335,8 @@ def run(ctx):
     ctx.assume(
         'Twisted: one callback at a time; connectionLost is called once per connection; '
         'LoopingCall.start(now=True) calls at once and asserts not running, stop asserts running',
-        'not covered: blocking client side (comms.acquire / comms.release recv loops), the 3 s '
-        'period, _do_copy thread, lockview bookkeeping (task_engine)',
+        'not covered: the 3 s period, _do_copy thread, lockview bookkeeping (task_engine); the '
+        'blocking client (comms.acquire / comms.release) is modelled in Client.v and tied on a fake socket',
     )
     fps = fingerprints()
     ctx.note('fingerprints', fps)
@@ -260,6 +389,7 @@ def run(ctx):
                    % (h['n'], h['events'], k, io, m),
                    {'source': 'correspondence', 'history': {'n': h['n'], 'events': h['events']},
                     'step': k, 'expected': repr(m), 'observed': repr(io)})
+    run_client(ctx)
     if not r['ok']:
         ctx.broken('theorem/file %s' % r['failing'], r['log'],
                    {'source': 'proof', 'theorem': r['failing']})
